@@ -80,7 +80,11 @@ var c10Alphas = []c10alpha{
 	{"DNA", alphabet.DNA, "acgt", false},
 	{"RNA", alphabet.RNA, "acgu", false},
 	{"cased-ACGT", c10Cased, "ACGT", true},
+	{"uncased-defined-as-ACGT", c10UpperDef, "acgt", false},
 }
+
+// a case-insensitive alphabet whose definition is written in upper case
+var c10UpperDef = alphabet.MustComplement(alphabet.NewComplementor("ACGT", feat.DNA, alphabet.MustPair(alphabet.NewPairing("ACGTacgt", "TGCAtgca")), '-', 'N', !alphabet.CaseSensitive))
 
 func (a c10alpha) code(b byte) int {
 	if !a.cased && b >= 'A' && b <= 'Z' {
@@ -262,6 +266,34 @@ func c10Check(r *obs.Run, a c10alpha, s []byte, k int, exhaustive bool) {
 				ps = append(ps, -6, -6)
 				_ = ps
 				scribbled++
+			}
+		}
+		for wd := range refPos { // ... entries too
+			if r.Rng.Intn(4) == 0 {
+				delete(m, kmerindex.Kmer(wd))
+				delete(sm, c10Text(a, wd, k))
+				scribbled++
+			}
+		}
+		// asked again, the index answers from its own state
+		m2, ok := ki.KmerIndex()
+		if !ok || len(m2) != len(refPos) {
+			fail("index-map", "KmerIndex size on a second call, after the caller edited the first answer", len(m2), len(refPos))
+		}
+		sm2, ok := ki.StringKmerIndex()
+		if !ok || len(sm2) != len(refPos) {
+			fail("index-map", "StringKmerIndex size on a second call, after the caller edited the first answer", len(sm2), len(refPos))
+		}
+		for wd, want := range refPos {
+			g := append([]int(nil), m2[kmerindex.Kmer(wd)]...)
+			sort.Ints(g)
+			if !reflect.DeepEqual(g, want) {
+				fail("index-map", "KmerIndex["+c10Text(a, wd, k)+"] on a second call, after the caller edited the first answer", g, want)
+			}
+			g = append([]int(nil), sm2[c10Text(a, wd, k)]...)
+			sort.Ints(g)
+			if !reflect.DeepEqual(g, want) {
+				fail("index-map", "StringKmerIndex["+c10Text(a, wd, k)+"] on a second call, after the caller edited the first answer", g, want)
 			}
 		}
 	}
